@@ -370,7 +370,15 @@ def rule_errorlocs(chk, prog, tier):
     for fn in prog.all_funcs():
         for c in [x for x in walk(fn) if x.get('kind') == 'CallExpr' and callee_name(x) == 'error']:
             a = text(c['inner'][1])
-            r.instance(a in ok_forms, 'errloc:%s:%s' % (fn['name'], a), '%s:%s' % (fn['_file'], c.get('line')), 'error() is given %s, which is not a token/scanner location' % a)
+            # besides the forms met so far: the address of any member named `loc` / `...loc` of type struct location (a location recorded in some structure), or a pointer variable handed in by the caller
+            arg = unwrap_all(c['inner'][1])
+            generic = False
+            if arg.get('kind') == 'UnaryOperator' and arg.get('opcode') == '&':
+                m_ = unwrap_all(arg['inner'][0])
+                generic = m_.get('kind') == 'MemberExpr' and m_.get('name', '').endswith('loc') and 'struct location' in m_.get('type', {}).get('qualType', '')
+            elif arg.get('kind') == 'DeclRefExpr':
+                generic = 'struct location *' in arg.get('type', {}).get('qualType', '')
+            r.instance(a in ok_forms or generic, 'errloc:%s:%s' % (fn['name'], a), '%s:%s' % (fn['_file'], c.get('line')), 'error() is given %s, which is not a token/scanner location' % a)
     # stringconcat: invalid UTF-8 in the FIRST of two pieces must be reported at the first piece
     fn = prog.require_func('stringconcat')
     toks = [('TSTRINGLIT', '"\udcff"'.encode('utf-8', 'surrogateescape').decode('latin-1')), ('TSTRINGLIT', '"ok"')]
